@@ -11,6 +11,14 @@ use swimos_recon::parser::{parse_recognize, AsyncParseError, RecognizerDecoder};
 use swimos_recon::{print_recon, print_recon_compact, print_recon_pretty, WithLenRecognizerDecoder};
 use tokio_util::codec::Decoder;
 
+/// Steps a witness shrinker may spend (lowered for scaled-down / interpreted runs, where shrinking
+/// thousands of candidates would dominate the run).
+pub static SHRINK_BUDGET: std::sync::atomic::AtomicI64 = std::sync::atomic::AtomicI64::new(3000);
+
+pub fn shrink_budget() -> i64 {
+    SHRINK_BUDGET.load(std::sync::atomic::Ordering::Relaxed)
+}
+
 pub const PRINTERS: [&str; 3] = ["standard", "compact", "pretty"];
 
 pub fn print_with<T: StructuralWritable>(which: usize, v: &T) -> String {
@@ -156,6 +164,11 @@ pub fn depth_of(v: &Value) -> usize {
 
 /// One-step simplifications of a value (for greedy shrinking of witnesses).
 pub fn shrink_candidates(v: &Value) -> Vec<Value> {
+    shrink_candidates_lim(v, shrink_budget().max(1) as usize)
+}
+
+/// At most about `limit` candidates (generation stops early: cloning large values is costly).
+fn shrink_candidates_lim(v: &Value, limit: usize) -> Vec<Value> {
     let mut out = Vec::new();
     if let Value::Record(attrs, items) = v {
         // replace by a child
@@ -184,7 +197,10 @@ pub fn shrink_candidates(v: &Value) -> Vec<Value> {
         }
         // simplify a child in place
         for i in 0..attrs.len() {
-            for c in shrink_candidates(&attrs[i].value) {
+            if out.len() >= limit {
+                break;
+            }
+            for c in shrink_candidates_lim(&attrs[i].value, limit.saturating_sub(out.len())) {
                 let mut a = attrs.clone();
                 a[i] = Attr { name: a[i].name.clone(), value: c };
                 out.push(Value::Record(a, items.clone()));
@@ -206,9 +222,12 @@ pub fn shrink_candidates(v: &Value) -> Vec<Value> {
             }
         }
         for i in 0..items.len() {
+            if out.len() >= limit {
+                break;
+            }
             match &items[i] {
                 Item::ValueItem(x) => {
-                    for c in shrink_candidates(x) {
+                    for c in shrink_candidates_lim(x, limit.saturating_sub(out.len())) {
                         let mut it = items.clone();
                         it[i] = Item::ValueItem(c);
                         out.push(Value::Record(attrs.clone(), it));
@@ -218,12 +237,12 @@ pub fn shrink_candidates(v: &Value) -> Vec<Value> {
                     let mut it = items.clone();
                     it[i] = Item::ValueItem(x.clone());
                     out.push(Value::Record(attrs.clone(), it));
-                    for c in shrink_candidates(k) {
+                    for c in shrink_candidates_lim(k, limit.saturating_sub(out.len())) {
                         let mut it = items.clone();
                         it[i] = Item::Slot(c, x.clone());
                         out.push(Value::Record(attrs.clone(), it));
                     }
-                    for c in shrink_candidates(x) {
+                    for c in shrink_candidates_lim(x, limit.saturating_sub(out.len())) {
                         let mut it = items.clone();
                         it[i] = Item::Slot(k.clone(), c);
                         out.push(Value::Record(attrs.clone(), it));
@@ -253,11 +272,11 @@ pub fn shrink_candidates(v: &Value) -> Vec<Value> {
 /// Greedy shrink: keep applying the first candidate on which `fails` still holds.
 pub fn shrink_value(v: &Value, fails: &dyn Fn(&Value) -> bool) -> Value {
     let mut cur = v.clone();
-    let mut budget = 3000;
+    let mut budget = shrink_budget();
     'outer: loop {
         for c in shrink_candidates(&cur) {
             budget -= 1;
-            if budget == 0 {
+            if budget <= 0 {
                 break 'outer;
             }
             if fails(&c) {
